@@ -515,9 +515,13 @@ def _resize_discr(discr, newshp, offset, discr_kwargs):
             if off is None:
                 num_r = n_diff // 2
                 num_l = n_diff - num_r
-            else:
+            elif n_diff >= 0:
                 num_r = n_diff - off
                 num_l = off
+            else:
+                # Restriction: `off` cells are removed on the left
+                num_l = -off
+                num_r = n_diff + off
         else:
             num_l, num_r = 0, 0
 
